@@ -21,5 +21,7 @@ def arch_interp(ctx):
     seeds['is_address'] = NativeFunc(lambda d: bool(d.get(afs.ad)))
     seeds['tab_int_size'] = dict((('ctor', 'uint%d' % n), n) for n in (8, 16, 32, 64))
     seeds['tab_int_size'].update(dict((('ctor', 'int%d' % n), n) for n in (8, 16, 32, 64)))
+    from .lifter import Namespace
+    seeds['x86mndb'] = Namespace('x86mndb', {'mnemo_lookup': dict((k, True) for k in X.lookup)})
     I = Interp(X.arch, afs, {}, set(), seeds=seeds)
     return X, I
